@@ -8,10 +8,12 @@ PROP = dict(
         quick=[
             job("sweep", "^TestVerifC18FeeFunction$", ["TestVerifC18FeeFunction"], 5000, shards=2),
             job("sweep", "^TestVerifC18Publisher$", ["TestVerifC18Publisher"], 2000, shards=2),
+            job("sweep", "^TestVerifC18Aggregator$", ["TestVerifC18Aggregator"], 1500, shards=2),
         ],
         thorough=[
             job("sweep", "^TestVerifC18FeeFunction$", ["TestVerifC18FeeFunction"], 50000, shards=4),
             job("sweep", "^TestVerifC18Publisher$", ["TestVerifC18Publisher"], 20000, shards=4),
+            job("sweep", "^TestVerifC18Aggregator$", ["TestVerifC18Aggregator"], 15000, shards=4),
         ],
     ),
 )
